@@ -178,31 +178,26 @@ func NewNode(o NodeOpts) (*Node, error) {
 	if !o.Tip.ChainValid {
 		return nil, errors.New("honest nodes hold valid branches only")
 	}
-	var store *chain.DBStore
 	var base uint64
 	var err error
 	var cm *chain.Manager
-	if o.Checkpoint != nil {
-		cp := o.Checkpoint
+	if cp := o.Checkpoint; cp != nil {
 		if cp.Block.V2 == nil || cp.Parent == nil || !cp.ChainValid {
 			return nil, errors.New("checkpoint must be a valid v2 block")
 		}
-		var tipState = cp.Parent.L.State
-		st, ts, err := chain.NewDBStoreAtCheckpoint(chain.NewMemDB(), tipState, cp.Block, nil)
+		store, ts, err := chain.NewDBStoreAtCheckpoint(chain.NewMemDB(), cp.Parent.L.State, cp.Block, nil)
 		if err != nil {
 			return nil, err
 		}
-		store, base = st, cp.Height
+		base = cp.Height
 		cm = chain.NewManager(store, ts)
 	} else {
-		st, ts, err := chain.NewDBStore(chain.NewMemDB(), env.Net, env.Genesis, nil)
+		store, ts, err := chain.NewDBStore(chain.NewMemDB(), env.Net, env.Genesis, nil)
 		if err != nil {
 			return nil, err
 		}
-		store = st
 		cm = chain.NewManager(store, ts)
 	}
-	_ = store
 	if err = Preload(cm, base, o.Tip); err != nil {
 		return nil, err
 	}
